@@ -130,7 +130,15 @@ func (*c02) CoqCase(ci, oi any) string {
 	if c.Kube != nil {
 		return "CKube (" + kubeCoq(c.Kube, o.Kube) + ")"
 	}
-	return "CHist (" + eng.CoqCase(*c.Hist, *o.Hist) + ")"
+	kept := make([]string, len(c.Hist.Steps))
+	for i := range c.Hist.Steps {
+		var k []string
+		if i < len(o.Hist.Steps) {
+			k = keptLines(o.Hist.Steps[i].Kept)
+		}
+		kept[i] = hx.CoqStrList(k)
+	}
+	return "CHist (" + eng.CoqCase(*c.Hist, *o.Hist) + ")\n  " + hx.CoqList(kept)
 }
 
 func (*c02) Class(ci, oi any) string {
